@@ -266,6 +266,43 @@ def rule_hub(program, ctx, prop=P, rid="C20.hub"):
             ctx.ok(rid, c, "exclusive bind, OSError = another worker is the hub")
 
 
+def rule_flag(program, ctx, prop=P, rid="C20.flag"):
+    ctx.rule(
+        rid,
+        "the multi-worker switch is visible in the process that starts the notifier: purple workers are *spawned* and re-load the configuration, so `run_notifier = True` "
+        "for workers > 1 is set in purple.worker_process after Config.load (a store in the parent's serve() never reaches them); Config.should_run_notifier dereferences "
+        "only the `gunicorn` section (always present) - a `.get` on an optional section raises AttributeError inside the property, which ConfigClass.__getattr__ turns "
+        "into a silent None (= notifier off, even with run_notifier: true)",
+        floor=2,
+    )
+    wp = program.func_opt("nostr_relay.purple:worker_process")
+    if wp is not None:
+        cfgw = cfg_of(wp)
+        loads = cfgw.stmt_nodes(lambda s: any(call_name(c) == "Config.load" for c in own_calls(s)), kinds=("stmt",))
+        sets = cfgw.stmt_nodes(lambda s: isinstance(s, ast.Assign) and any(dotted(t) == "Config.run_notifier" for t in s.targets), kinds=("stmt",))
+        runs = cfgw.stmt_nodes(lambda s: any(call_name(c) in ("asyncio.run", "main") for c in own_calls(s)), kinds=("stmt",))
+        if sets and loads and runs and not cfgw.find_path(sets, loads, kinds=NORMAL):
+            ctx.ok(rid, cfgw.ast_of(sets[0]), "purple worker: run_notifier set after Config.load, before the worker's main()")
+        else:
+            ctx.bad(finding_func(prop, rid, wp, "purple.worker_process no longer switches the notifier on for workers > 1 in the worker's own (spawned) process: with several purple "
+                                 "workers no NotifyClient/NotifyServer is started and events accepted by one worker never reach the others", text="def worker_process(...) :: run_notifier"))
+    cc = program.cls("nostr_relay.config:ConfigClass")
+    sp = cc.methods.get("should_run_notifier")
+    if sp is None:
+        ctx.bad(finding_at(prop, rid, cc.node, "ConfigClass.should_run_notifier is gone"))
+    else:
+        deref = [a for a in ast.walk(sp) if isinstance(a, ast.Attribute) and isinstance(a.value, ast.Attribute) and dotted(a.value.value) == "self"]
+        sections = {a.value.attr for a in deref}
+        optional = sections - {"gunicorn", "__dict__"}
+        if optional and "__getattr__" in cc.methods:
+            ctx.bad(finding_at(prop, rid, sp, f"should_run_notifier dereferences the optional section(s) {sorted(optional)}: when absent the AttributeError inside the property is swallowed by "
+                               "ConfigClass.__getattr__ and the property reads as None - the notifier is never started"))
+        elif "run_notifier" in ast.unparse(sp) and "workers" in ast.unparse(sp):
+            ctx.ok(rid, sp, "should_run_notifier = gunicorn workers > 1 or run_notifier")
+        else:
+            ctx.bad(finding_at(prop, rid, sp, "should_run_notifier no longer combines the worker count with run_notifier"))
+
+
 def run(program, ctx):
     from ..lib import rule_awaited
 
@@ -275,6 +312,7 @@ def run(program, ctx):
     rule_fanout(program, ctx)
     rule_announce(program, ctx)
     rule_hub(program, ctx)
+    rule_flag(program, ctx)
     from . import c06
 
     c06.rule_reap(program, ctx, prop=P, rid="C20.reap")
